@@ -8,6 +8,8 @@ CLAIMED={
  "C02":("exploration","message-heavy seeded runs with non-default window configs; message-ledger oracle after quiescence (exactly once, intact, valid; losing-branch messages not valid) plus per-step content immutability","§8 C02","obligation only for (message, client) pairs whose hand-overs stayed inside the epoch and ratchet windows"),
  "C07":("exploration","every event that took effect is handed over again at arbitrary later points (later epochs, after rollback, eviction, restart, quiescence passes); restricted-fingerprint equality before/after each re-delivery","§8 C07","dedup-record internals are not part of the compared state"),
  "C08":("exploration","after every API call in seeded histories (two groups, id rotation, relay/admin/image updates, rollbacks, restarts): stored record + relays == MLS state, lookup by the id in force, no 'group not found' for an active member, no cross-group effect","§8 C08","honest members"),
+ "C11":("exploration","each seeded history on SQLite/SQLCipher is executed twice from one seed, with clean restarts at seeded positions and with the restarts replaced by no-ops; per-step reseeding makes both executions byte-comparable, so every later API result and per-step fingerprint must be equal","§8 C11","clean shutdown only; same constructor/key/config on reopen"),
+ "C20":("exploration","after every step list_group_snapshots of every client/group is compared with an executable snapshot-queue model (retention 0..6, TTL 5..120 s, clock jumps, rollbacks, restarts)","§8 C20","snapshot age measured on the node's simulated clock"),
 }
 checks=[]
 for pid,(cat,text,ref,note) in CLAIMED.items():
